@@ -110,6 +110,10 @@ func init() {
 					}
 				}
 				c18Sweep(c)
+				for _, rev := range []bool{false, true} {
+					rev := rev
+					c.Do(func() any { return map[string]any{"stream": true, "rev": rev} }, func() *fw.Violation { return c18Stream(c, rev) })
+				}
 				return
 			}
 			prefix := string([]byte{c18Syms[u/n], c18Syms[u%n]})
@@ -141,6 +145,13 @@ func init() {
 			rec(0)
 		},
 		Replay: func(c *fw.Ctx, raw json.RawMessage) *fw.Violation {
+			var st struct {
+				Stream bool `json:"stream"`
+				Rev    bool `json:"rev"`
+			}
+			if json.Unmarshal(raw, &st) == nil && st.Stream {
+				return c18Stream(c, st.Rev)
+			}
 			var s c18Spec
 			if !unmarshal(raw, &s) {
 				return nil
@@ -148,6 +159,59 @@ func init() {
 			return c18Check(c, s.Fmt, s.Args)
 		},
 	})
+}
+
+// c18Stream: printf as ONE call site whose format and arguments come from the elements of the input (every format of
+// length <= 4 that the model formats with the arguments ("ab", 1.5), in order and reversed, then one that fails).
+func c18Stream(c *fw.Ctx, rev bool) *fw.Violation {
+	var good []string
+	bad := ""
+	args := []refsem.Value{refsem.Str("ab"), refsem.Num(1.5)}
+	var rec func(f string)
+	rec = func(f string) {
+		if _, ok := refsem.Printf(append([]refsem.Value{refsem.Str(f)}, args...), nil); ok {
+			good = append(good, f)
+		} else if bad == "" && len(f) == 3 {
+			bad = f
+		}
+		if len(f) == 4 {
+			return
+		}
+		for _, b := range c18Syms {
+			rec(f + string(b))
+		}
+	}
+	rec("")
+	if rev {
+		for i, j := 0, len(good)-1; i < j; i, j = i+1, j-1 {
+			good[i], good[j] = good[j], good[i]
+		}
+	}
+	good = append(good, bad)
+	var sb, want strings.Builder
+	sb.WriteByte('[')
+	for i, f := range good {
+		if i > 0 {
+			sb.WriteByte(',')
+		}
+		sb.WriteString(`{"f":"` + f + `"}`)
+		if out, ok := refsem.Printf(append([]refsem.Value{refsem.Str(f)}, args...), nil); ok {
+			want.WriteString(out + "|\n")
+		}
+	}
+	sb.WriteByte(']')
+	s := drive.Spec{Program: `{ printf($.f, "ab", 1.5); print "|" }`, Files: []drive.File{{Name: "in.json", Data: sb.String()}}, Budget: 2_000_000}
+	o := run(c, s)
+	c.Traces++
+	c.Transitions += int64(len(good))
+	v := expect(s, o, want.String(), drive.KRuntime, "one printf call site over a sequence of formats")
+	if v != nil {
+		if d, ok := v.Detail.(detail); ok {
+			d.Files = nil
+			v.Detail = d
+		}
+	}
+	return v
 }
 
 func c18Sweep(c *fw.Ctx) {
